@@ -14,7 +14,7 @@ Reset == /\ ch' = <<>> /\ done' = FALSE /\ stop' = FALSE /\ readers' = {}
          /\ cancelled' = [p \in Callers |-> FALSE] /\ ncancel' = 0
          /\ accepted' = {} /\ rejected' = {}
          /\ wpc' = "select" /\ batch' = <<>> /\ closing' = FALSE
-         /\ delivered' = <<>> /\ dead' = <<>> /\ nfail' = 0 /\ xpc' = "idle"
+         /\ delivered' = <<>> /\ dead' = <<>> /\ nfail' = 0 /\ ambig' = {} /\ xpc' = "idle"
 Q(e) == Len(ch') = e.q
 TStep ==
   /\ l <= Len(Trace)
@@ -35,7 +35,7 @@ TStep ==
            \/ e.op = "SSlow" /\ SSlow(e.t, e.br) /\ Q(e) /\ (e.br = "send" => obs = <<Id(e.t, k[e.t])>>)
            \/ e.op = "WSelect" /\ WSelect(e.br) /\ Q(e)
            \/ e.op = "WDrain" /\ WDrain(e.br) /\ Q(e)
-           \/ e.op = "WFlush" /\ WFlush(e.br = "TRUE") /\ Q(e) /\ obs = batch
+           \/ e.op = "WFlush" /\ WFlush(e.br) /\ Q(e) /\ obs = batch
            \/ e.op = "XClose" /\ XClose /\ Q(e)
            \/ e.op = "XStop" /\ XStop /\ Q(e)
            \/ e.op = "XWait" /\ XWait /\ Q(e)
